@@ -264,6 +264,7 @@ package parser
 //@   decreases PD(p), 2
 //@ func (p *Parser) parseStringLiteral
 //@   decreases PD(p), 2
+//@   goal value-is-the-token-text: istype(result, *ast.StringLiteral) && as(result, *ast.StringLiteral).Value == old(p.curToken.Literal)
 //@ func (p *Parser) parseNilLiteral
 //@   decreases PD(p), 2
 //@ func (p *Parser) parseBooleanLiteral
